@@ -174,6 +174,7 @@ Definition prog_ok (x : option (list Qc)) (y : list Qc) (e : option exn) (steps 
         self.exhaustive_domain = exhaustive_domain
         self.invalid = invalid
         self.queries = queries
+        self._held = []
 
     # ------------------------------------------------------------------ generation
     def gen(self, rng, tier):
@@ -250,6 +251,69 @@ Definition prog_ok (x : option (list Qc)) (y : list Qc) (e : option exn) (steps 
                     script = [dict(chg), {"op": "restore"}, dict(req)]
                     cases.append({"x": gens.sorted_x(rng, m, rng.choice(["uniform", "dyadic", "int"])), "y": gens.values(rng, m), "script": script, "seed": 1,
                                   "len": len(script), "pool": [], "as_list": False, "int_x": False, "x_none": False, "invalid": False})
+        if "interpolate" in pool and not self.exhaustive_domain:
+            # the coarsest grids: n = 2 and an explicit grid of the two end points, for every method
+            for meth in ("linear", "constant", "cubic", "spline"):
+                for kind in ("n", "grid"):
+                    m = rng.randint(6, 9)
+                    xs_ = gens.sorted_x(rng, m, rng.choice(["uniform", "int", "dyadic"]))
+                    op_ = {"op": "interpolate", "n": 2, "method": meth} if kind == "n" else {"op": "interpolate", "new_x": [xs_[0], xs_[-1]], "as_list": False, "method": meth}
+                    cases.append({"x": xs_, "y": [float(v) for v in rng.sample(range(-8, 9), m)], "script": [op_], "seed": 1, "len": 1, "pool": [], "as_list": False,
+                                  "int_x": False, "x_none": False, "invalid": False})
+            # an explicit grid with exactly as many points as the original series, handed in as the caller's own array, then restore:
+            # the grid is the caller's, nothing may be written into it
+            for meth in ("linear", "cubic"):
+                m = rng.randint(6, 9)
+                xs_ = gens.sorted_x(rng, m, rng.choice(["int", "dyadic", "ratio"]))
+                grid = [xs_[0] + (xs_[-1] - xs_[0]) * i / (m - 1) for i in range(m)]
+                grid[-1] = xs_[-1]
+                script = [{"op": "interpolate", "new_x": grid, "as_list": False, "method": meth}, {"op": "shift_y", "v": 1.5}, {"op": "restore"}]
+                cases.append({"x": xs_, "y": [float(v) for v in rng.sample(range(-8, 9), m)], "script": script, "seed": 1, "len": len(script), "pool": [],
+                              "as_list": False, "int_x": False, "x_none": False, "invalid": False})
+        if "append" in pool:
+            # the periodic flag given as a NumPy bool (y[0] != y[-1] on arrays) and as an integer
+            for fk_ in ("np_bool", "int"):
+                m = rng.randint(5, 8)
+                cases.append({"x": gens.sorted_x(rng, m, rng.choice(["uniform", "int", "dyadic"])), "y": [float(v) for v in rng.sample(range(-8, 9), m)],
+                              "script": [{"op": "append", "periodic": True, "flag_kind": fk_}], "seed": 1, "len": 1, "pool": [], "as_list": False,
+                              "int_x": False, "x_none": False, "invalid": False})
+        if "normalize_x" in pool and "normalize_y" in pool:
+            # both axes normalised to the SAME range, in either order, and the values normalised to the range the abscissae happen to
+            # span: each axis is mapped onto the requested range whatever the other axis looks like
+            for script in ([{"op": "normalize_x", "lo": 0.0, "hi": 1.0}, {"op": "normalize_y", "lo": 0.0, "hi": 1.0}],
+                           [{"op": "normalize_y", "lo": -1.0, "hi": 1.0}, {"op": "normalize_x", "lo": -1.0, "hi": 1.0}],
+                           [{"op": "normalize_x", "lo": -2.0, "hi": 6.0}, {"op": "normalize_y", "lo": -2.0, "hi": 6.0}, {"op": "normalize_x", "lo": -2.0, "hi": 6.0}]):
+                m = rng.randint(5, 8)
+                cases.append({"x": gens.sorted_x(rng, m, rng.choice(["uniform", "int", "dyadic"])), "y": [float(v) for v in rng.sample(range(-8, 9), m)],
+                              "script": script, "seed": 1, "len": len(script), "pool": [], "as_list": False, "int_x": False, "x_none": False, "invalid": False})
+            m = rng.randint(5, 8)
+            cases.append({"x": [float(4 * i) for i in range(m)], "y": [float(v) for v in rng.sample(range(-8, 9), m)],
+                          "script": [{"op": "normalize_y", "lo": 0.0, "hi": float(4 * (m - 1))}], "seed": 1, "len": 1, "pool": [], "as_list": False,
+                          "int_x": False, "x_none": False, "invalid": False})
+        if self.invalid and "interpolate" in pool:
+            # an unknown interpolation method asked of a series of two or three samples (one or two intervals; a longer series cut down
+            # first): refused like on any other series, the series untouched
+            bad_m = lambda nm: {"op": "interpolate", "n": 5, "method": nm, "invalid": "method"}
+            for xs_, pre in (([0.0, 1.0], []), ([0.5, 2.0, 3.0], []), ([0.0, 1.0, 2.0, 4.0, 5.0, 7.0], [{"op": "truncate_by_index", "start": 1, "stop": 4}]),
+                             ([0.0, 1.0, 2.0, 4.0, 5.0, 7.0], [{"op": "truncate_by_index", "start": 2, "stop": 4}])):
+                for nm in ("quadratic", "Linear", ""):
+                    script = [dict(p_) for p_ in pre] + [bad_m(nm)]
+                    cases.append({"x": xs_, "y": [float(v) for v in rng.sample(range(-8, 9), len(xs_))], "script": script, "seed": 1, "len": len(script), "pool": [],
+                                  "as_list": False, "int_x": False, "x_none": False, "invalid": False})
+        if "recreate" in pool and not self.exhaustive_domain:
+            # options whose value is exactly zero (falsy in Python) are options like any others: no straight piece (beta = 0), the
+            # smallest window (a = 0 / alpha = 0, raised to 2 samples)
+            for strat, kw_ in (("linfixed", {"a": 0, "alpha": None}), ("linfixed", {"a": None, "alpha": 0.0}), ("expfixed", {"a": None, "alpha": 1.0, "beta": 0.0}),
+                               ("expfixed", {"a": 0, "alpha": None, "beta": 1.0}), ("expadapt", {"a": None, "alpha": 1.0, "beta": 0.0}), ("linadapt", {"a": 0, "alpha": None})):
+                m = rng.randint(5, 8)
+                rec_ = {"op": "recreate", "n": 8, "strategy": strat, "alpha": 1.0, "a": None, "beta": 0.5, "exp": 2.0, "smooth": 1.0}
+                rec_.update(kw_)
+                ys_ = [float(v) for v in rng.sample(range(-8, 9), m)]
+                xs_ = gens.sorted_x(rng, m, rng.choice(["uniform", "int", "ratio"]))
+                if strat in ("linadapt", "expadapt") and not rfa_units.adaptive_windows_exact(dict(rec_, x=xs_, y=ys_))[2]:
+                    continue      # the rounded window split takes another int() branch than the exact one (DESIGN 3.6)
+                cases.append({"x": xs_, "y": ys_, "script": [rec_], "seed": 1, "len": 1, "pool": [],
+                              "as_list": False, "int_x": False, "x_none": False, "invalid": False})
         if "truncate_by_index" in pool and not self.exhaustive_domain:
             # truncate_by_index with the stop omitted when reference and working series have different lengths (after down-sampling the
             # reference is longer, after a recreation shorter): all series are cut at the same abscissae ... by Python's slice rule
@@ -354,7 +418,8 @@ Definition prog_ok (x : option (list Qc)) (y : list Qc) (e : option exn) (steps 
         n = len(x)
         exact = is_exact(x)
         if name == "append":
-            return {"op": "append", "periodic": rng.random() < 0.5}
+            # (the flag as a Python bool, a NumPy bool — the result of a comparison on arrays — or an integer: truthiness decides)
+            return {"op": "append", "periodic": rng.random() < 0.5, "flag_kind": rng.choice(["bool", "bool", "np_bool", "int"])}
         if name in ("shift_x", "shift_y"):
             return {"op": name, "v": gens.dyadic(rng, -4, 4, 2)}
         if name == "scale_x":
@@ -536,7 +601,8 @@ Definition prog_ok (x : option (list Qc)) (y : list Qc) (e : option exn) (steps 
             if om and not o["periodic"]:
                 w.append_one_sample()
             else:
-                w.append_one_sample(make_periodic=o["periodic"])
+                fk_ = o.get("flag_kind", "bool")
+                w.append_one_sample(make_periodic=np.bool_(o["periodic"]) if fk_ == "np_bool" else int(o["periodic"]) if fk_ == "int" else o["periodic"])
         elif name in ("shift_x", "shift_y", "scale_x", "scale_y"):
             getattr(w, name)(o["v"])
         elif name in ("normalize_x", "normalize_y"):
@@ -581,6 +647,8 @@ Definition prog_ok (x : option (list Qc)) (y : list Qc) (e : option exn) (steps 
                 w.interpolate(n=nn, **mkw) if not om else w.interpolate(nn, **mkw)
             elif "new_x" in o:
                 g = list(o["new_x"]) if o["as_list"] else np.array(o["new_x"], dtype=float)
+                if not o["as_list"]:
+                    self._held.append((g, g.copy()))       # the caller's own array: watched until the end of the program
                 if o.get("also_n") is not None:
                     w.interpolate(n=o["also_n"], new_x=g, **mkw) if not om else w.interpolate(o["also_n"], g, **mkw)
                 else:
@@ -681,6 +749,7 @@ Definition prog_ok (x : option (list Qc)) (y : list Qc) (e : option exn) (steps 
         script = c.get("script")
         issued = []
         fresh = None
+        self._held = []
         nsteps = len(script) if script is not None else c["len"]
         with warnings.catch_warnings():
             warnings.simplefilter("ignore")
@@ -737,6 +806,19 @@ Definition prog_ok (x : option (list Qc)) (y : list Qc) (e : option exn) (steps 
                     st.update(snapshot(w))
                     if len(rec.calls) > ncalls:
                         st["normal_call"] = rec.calls[-1]
+                    # recreate_from_average(n, rfa_class=C, **options) is the strategy C applied to the working series with exactly those
+                    # options: the same class called directly on the series as it was must give the same arrays, bit for bit
+                    if o["op"] == "recreate" and "exc" not in st and "invalid" not in o and not o.get("all_defaults") \
+                            and o.get("strategy") in ("pc", "linfixed", "linadapt", "expfixed", "expadapt", "cubic"):
+                        try:
+                            with warnings.catch_warnings():
+                                warnings.simplefilter("ignore")
+                                dx_, dy_ = rfa_units.cls_of(o["strategy"])(np.array(before["state"][0], dtype=float), np.array(before["state"][1], dtype=float),
+                                                                           int(o["n"]), **rfa_units.kwargs_of(o)).rfa()
+                            st["direct_equal"] = bool(np.array_equal(np.asarray(dx_, dtype=float), np.asarray(w.x, dtype=float)) and
+                                                      np.array_equal(np.asarray(dy_, dtype=float).reshape(-1), np.asarray(w.y, dtype=float).reshape(-1)))
+                        except Exception as e:
+                            st["direct_equal"] = "direct call raised %s" % exn_name(e)
                     # "after restore_original the object behaves, for every subsequent operation, exactly like a newly constructed one
                     # on the data get_original() returns": from a restore on, a new object gets the same requests (until noise, whose
                     # draws are not replayed); the two must stay in the same state, bit for bit, and raise alike
@@ -760,7 +842,7 @@ Definition prog_ok (x : option (list Qc)) (y : list Qc) (e : option exn) (steps 
                             st["fresh_differs"] = "raised %s / %s" % (st.get("exc"), exc_f) if exc_f != st.get("exc") else "states differ"
                             fresh = None
                 st["before"] = before["state"]
-                st["caller_changed"] = not (np.array_equal(xin, cx) and np.array_equal(yin, cy))
+                st["caller_changed"] = not (np.array_equal(xin, cx) and np.array_equal(yin, cy)) or any(not np.array_equal(a_, b_) for a_, b_ in self._held)
                 out["steps"].append(st)
                 bad_state = any(s is None for s in st["state"]) or not all_finite(*[s for s in st["state"] if s is not None]) \
                     or any(k_ != "ndarray" for k_ in st["kinds"]) \
@@ -893,7 +975,9 @@ Definition prog_ok (x : option (list Qc)) (y : list Qc) (e : option exn) (steps 
             if "exc" in st:
                 if st["exc"] == "ValueError" and S != B:
                     fail("C20", "rejected-but-changed", "step %d: %s raised ValueError but changed the object" % (i, op))
-                fail("C09", "valid-op-raises", "step %d: valid operation %s raised %s" % (i, op, st.get("exc_msg")), op=name)
+                # (a valid request that is refused or crashes: for C09 in the general programs, for the unit's own property in the
+                #  programs restricted to its operations — "interpolate(n) produces exactly n points" is not met by a StopIteration)
+                fail("C09" if "C09" in self.aspects else sorted(self.aspects)[0], "valid-op-raises", "step %d: valid operation %s raised %s" % (i, op, st.get("exc_msg")), op=name)
                 continue
             if name in QUERY_OPS:
                 if S != B:
@@ -915,6 +999,11 @@ Definition prog_ok (x : option (list Qc)) (y : list Qc) (e : option exn) (steps 
                 break
             if any(b <= a for a, b in zip(S[0][:-1], S[0][1:])):
                 fail("C09", "sorted", "step %d: abscissae not strictly increasing after %s" % (i, op), op=name)
+            if st.get("direct_equal") not in (None, True):
+                recp = next((p_ for p_ in ("C06", "C05", "C04", "C09") if p_ in self.aspects), None)
+                if recp:
+                    fail(recp, "recreate-direct", "step %d: recreate_from_average(%s) differs from the strategy class called directly on the working series with the same options (%s)" % (
+                        i, {k_: v_ for k_, v_ in op.items() if not k_.startswith("_") and k_ not in ("op", "omit")}, st["direct_equal"]), op=name)
             if st.get("fresh_differs"):
                 fail("C09", "restore-behaviour", "step %d: after restore_original, %s on the restored object and on a new Weaver(get_original()) differ (%s)" % (i, {k_: v_ for k_, v_ in op.items() if not k_.startswith("_")}, st["fresh_differs"]), op=name)
             if name.startswith("normalize"):
@@ -972,7 +1061,7 @@ Definition prog_ok (x : option (list Qc)) (y : list Qc) (e : option exn) (steps 
         close = lambda a, b: len(a) == len(b) and (len(a) == 0 or float(np.max(np.abs(np.array(a) - np.array(b)))) <= 1e-9 * (1 + float(np.max(np.abs(np.array(b))))))
         # what each domain operation does is the subject of C11 / C12 / C14 / C17 — and of C08, which says that working and reference
         # series "equal the original with exactly those transformations applied": when the unit runs for C08 these oracles judge for it
-        dom = lambda p: p if p in self.aspects else "C08"
+        dom = lambda p: p if p in self.aspects else ("C02" if "C02" in self.aspects and "C08" not in self.aspects else "C08")      # (C02's pipeline names the append step)
         if name == "append":
             for kx, ky in ((0, 1), (4, 5)):
                 x, y = B[kx], B[ky]
